@@ -694,3 +694,77 @@ Proof.
     rewrite Ex. destruct r; [congruence|reflexivity..].
   - inversion E; subst. exact H1.
 Qed.
+
+(* a change of the registered write interests *)
+Lemma RQ_want : forall W ops xa rf u p0 b s ww,
+  RQ W ops xa rf u (p0, b) s ->
+  (et = false -> forall fd c, In (fd, c) (l_reg s) -> c_udp (getc s c) = false -> pdead p0 c = false ->
+     pdirty p0 c = false -> c_out (getc s c) <> [] -> xa <> QX c ->
+     getd false fd (p_want_w p0) = true -> getd false fd ww = true) ->
+  RQ W ops xa rf u (with_want p0 ww, b) s.
+Proof.
+  intros W ops xa rf u p0 b s ww HR Hw.
+  eapply RQ_prog; [exact HR|reflexivity|reflexivity|auto| | | |].
+  - intros fd c H D. destruct (q_regop _ _ _ _ _ _ _ HR fd c H D) as [A|[A|A]]; auto.
+  - exact (q_nop _ _ _ _ _ _ _ HR).
+  - intros fd c H A D E F G. pose proof (q_main _ _ _ _ _ _ _ HR fd c H A D E F G) as M.
+    unfold served in *. cbn [with_want p_owed p_want_w fst] in *. destruct et eqn:Eet; [exact M|].
+    eapply Hw; eauto.
+  - pose proof (q_x _ _ _ _ _ _ _ HR) as X. destruct xa; exact X.
+Qed.
+
+Lemma getd_aremove : forall A (d : A) k k' m, getd d k (aremove k' m) = if k =? k' then d else getd d k m.
+Proof. intros. unfold getd. rewrite alookup_aremove. destruct (k =? k'); reflexivity. Qed.
+
+(* write interest is requested: nothing can be lost, and on success the descriptor is served *)
+Lemma Q_epctl_arm : forall W ops xa rf op fd e w r w', op_code op <> 2 ->
+  QINV (RQ W ops xa rf) w -> epctl op fd true e w = (r, w') ->
+  QINV (fun u x s => RQ W ops xa rf u x s /\
+          (r = RNil -> halt w' = false -> et = false -> getd false fd (p_want_w (fst x)) = true)) w'.
+Proof.
+  intros W ops xa rf op fd e w r w' Hop HI E.
+  pose proof (Q_epctl _ _ _ _ _ _ _ _ _ _ _ HI E) as H. eapply Inv_weaken; [|exact H].
+  intros [] [p b] Hh (p0 & HR & Ex). cbn [fst snd] in *. subst p. split.
+  - apply RQ_want; [exact HR|]. intros _ fd0 c _ _ _ _ _ _ G.
+    destruct r; try exact G. replace (op_code op =? 2) with false by lia.
+    rewrite getd_aset. destruct (fd0 =? fd); [reflexivity|exact G].
+  - intros -> _ _. cbn [with_want p_want_w]. replace (op_code op =? 2) with false by lia.
+    rewrite getd_aset, Z.eqb_refl. reflexivity.
+Qed.
+
+(* the descriptor concerned has no registered connection with pending output *)
+Lemma Q_epctl_free : forall W ops xa rf op fd rw e w r w',
+  (forall u p b s, RQ W ops xa rf u (p, b) s ->
+     forall c, In (fd, c) (l_reg s) -> c_udp (getc s c) = false -> pdead p c = false -> c_out (getc s c) <> [] -> False) ->
+  QINV (RQ W ops xa rf) w -> epctl op fd rw e w = (r, w') -> QINV (RQ W ops xa rf) w'.
+Proof.
+  intros W ops xa rf op fd rw e w r w' Hfree HI E.
+  pose proof (Q_epctl _ _ _ _ _ _ _ _ _ _ _ HI E) as H. eapply Inv_weaken; [|exact H].
+  intros [] [p b] Hh (p0 & HR & Ex). cbn [fst snd] in *. subst p.
+  apply RQ_want; [exact HR|]. intros _ fd0 c Hin A D _ F _ G.
+  destruct (Z.eq_dec fd0 fd) as [->|N]; [exfalso; eapply Hfree; eauto|].
+  destruct r; try exact G. destruct (op_code op =? 2); [rewrite getd_aremove|rewrite getd_aset];
+    replace (fd0 =? fd) with false by lia; exact G.
+Qed.
+
+Lemma noreg_free : forall fd (m : list (Z * Z)), alookup fd m = None -> forall c, In (fd, c) m -> False.
+Proof. intros fd m H c Hin. apply in_alookup in Hin. congruence. Qed.
+
+(* close(fd): the registration is forgotten *)
+Lemma Q_sys_close : forall W ops xa rf fd w k w',
+  (forall u p b s, RQ W ops xa rf u (p, b) s ->
+     forall c, In (fd, c) (l_reg s) -> c_udp (getc s c) = false -> pdead p c = false -> c_out (getc s c) <> [] -> False) ->
+  QINV (RQ W ops xa rf) w -> sys "close" [AInt fd] w = (k, w') -> QINV (RQ W ops xa rf) w'.
+Proof.
+  intros W ops xa rf fd w k w' Hfree HI E. unfold sys in E.
+  eapply (Inv_sysret ustep qstep tt _ (fun _ => True)); [apply RQ_pull_ok|apply RQ_in_ign|auto| |exact E].
+  eapply Inv_emit; [exact HI|reflexivity|].
+  intros [] [p b] _ HR. cbn [ustep]. unfold qstep, rdx, obs. cbn [fst snd prog_step].
+  replace (if et then rd_step b _ else Some b) with (Some b) by (destruct et; reflexivity).
+  eexists. split; [reflexivity|].
+  pose proof (RQ_want _ _ _ _ _ _ _ _ (aremove fd (p_want_w p)) HR) as HW.
+  pose proof (q_last _ _ _ _ _ _ _ HR) as Hl. cbn [fst] in Hl. rewrite Hl.
+  apply HW. intros _ fd0 c Hin A D _ F _ G.
+  destruct (Z.eq_dec fd0 fd) as [->|N]; [exfalso; eapply Hfree; eauto|].
+  rewrite getd_aremove. replace (fd0 =? fd) with false by lia. exact G.
+Qed.
